@@ -53,18 +53,21 @@ var schemes = []string{"https://", "HTTPS://", "http://", "ftp://", "//", "https
 var userinfos = []string{"", "u@", "u:p@"}
 
 type hostAtom struct {
-	Raw  string
-	Dial string // expected dial address
-	OK   bool   // a valid dial host
-	Dead bool   // the peer refuses connections
+	Raw    string
+	Dial   string // expected dial address
+	OK     bool   // a valid dial host
+	Dead   bool   // the peer refuses connections
+	NoConn bool   // the URL names a port that does not exist: no connection at all
 }
 
 var hostAtoms = []hostAtom{
-	{"h1.example", "h1.example:443", true, false}, {"h1.example:443", "h1.example:443", true, false}, {"h1.example:8443", "h1.example:8443", true, false},
-	{"H1.example", "H1.example:443", true, false}, {"h1.example.", "h1.example.:443", true, false}, {"127.0.0.1", "127.0.0.1:443", true, false}, {"[::1]:8443", "[::1]:8443", true, false}, {"", ":443", false, false},
+	{"h1.example", "h1.example:443", true, false, false}, {"h1.example:443", "h1.example:443", true, false, false}, {"h1.example:8443", "h1.example:8443", true, false, false},
+	{"H1.example", "H1.example:443", true, false, false}, {"h1.example.", "h1.example.:443", true, false, false}, {"127.0.0.1", "127.0.0.1:443", true, false, false}, {"[::1]:8443", "[::1]:8443", true, false, false}, {"", ":443", false, false, false},
 	// a host that refuses connections, placed between live ones: whatever a failed fetch
 	// leaves behind must not leak into the next request
-	{"dead.example", "dead.example:443", true, true}, {"h2.example", "h2.example:443", true, false},
+	{Raw: "dead.example", Dial: "dead.example:443", OK: true, Dead: true}, {Raw: "h2.example", Dial: "h2.example:443", OK: true},
+	// ports beyond 65535 name nothing: 443 and 8443 plus multiples of 2^16, and plus 2^32
+	{Raw: "h1.example:65979", NoConn: true}, {Raw: "h1.example:73979", NoConn: true}, {Raw: "h1.example:4294967739", NoConn: true}, {Raw: "h1.example:65536", NoConn: true},
 }
 
 // ---------------------------------------------------------------- generic oracle
@@ -210,6 +213,12 @@ func urlProduct(r *ev.Report) {
 							if !httpsAbs && sch != "https:" {
 								if len(conns) != 0 {
 									r.Violation("url:non-https-dialled", map[string]any{"url": raw, "addr": conns[0].Addr, "kind": conns[0].Kind, "msg": "a connection was opened for a URL that is not https"})
+								}
+								continue
+							}
+							if h.NoConn && httpsAbs {
+								if len(conns) != 0 {
+									r.Violation("url:port-out-of-range-dialled", map[string]any{"url": raw, "addr": conns[0].Addr, "msg": "the URL names a port beyond 65535 and a connection was opened (to another port)"})
 								}
 								continue
 							}
@@ -391,7 +400,7 @@ func genericEntries(r *ev.Report) {
 func main() {
 	envaDir := enva.Reexec()
 	r := ev.New("C04", "exploration",
-		"E1a: full product scheme(6) x userinfo(3) x host(10, one of them refusing connections) x path(14) x query(10) x fragment(3) through url.Parse + jtp.Get: the single connection goes to the URL's host and port over TLS and the bytes written are exactly "+
+		"E1a: full product scheme(6) x userinfo(3) x host(14, one of them refusing connections, four with a port beyond 65535) x path(14) x query(10) x fragment(3) through url.Parse + jtp.Get: the single connection goes to the URL's host and port over TLS and the bytes written are exactly "+
 			"request line + Host + Accept for the expected wire form of each component; non-https URLs open no connection. E1b-e: 18 hostile references x 4 sources through client.FetchUnknown, as Location / embedded reference / id of served documents through pub.New "+
 			"and every Tangible method, 154 webfinger handles through pub.FetchUserInput, and the UI's :open command typed byte by byte, with a generic oracle on every connection (TLS, four CRLF lines, no control bytes, origin-form target without blanks or fragment, "+
 			"Host matches the dial address, constant Accept); Env-A: a complete sub-product (2 schemes x 3 host spellings x 12 paths x 6 queries, with userinfo and fragment) over real TLS on a loopback port with a run-time CA and an in-process DNS responder: TLS first byte, SNI, exact bytes, resolver queries; distinct_nontrivial = judged requests with distinct inputs")
